@@ -182,6 +182,7 @@ func (r *rbuf) f64(le bool) (float64, error) {
 			v |= uint64(b[7-i]) << (8 * uint(i))
 		}
 	}
+	r.fields = append(r.fields, Field{Kind: FCoord, Off: r.off, LE: le})
 	r.off += 8
 	return math.Float64frombits(v), nil
 }
